@@ -186,3 +186,128 @@ def wellTypedMB (P : Program) : Bool :=
   P.top.binds.all fun b => !b.split
 
 end Martian.ResolverStatic
+
+namespace Martian.ResolverStatic
+open Martian.Dataflow
+
+/-! ## programs with map calls of stages (array / typed-map mode; sizes checked by `staticProgramOk`) -/
+
+def mappedOkGB (st : StructTable) (n : Nat) (P : Program) (sT cT : String → Ty) (c : Call) (isMap : Bool) : Bool :=
+  c.mapped && c.disabled.isNone && isStageB P c.callee &&
+  (c.binds.any fun b => b.split) &&
+  decide ((c.binds.map (·.param)).Nodup) &&
+  (c.binds.all fun b => !b.split || (P.insOf c.callee).any fun p => p.name == b.param) &&
+  (!isMap || (P.insOf c.callee).all fun p =>
+    match c.binds.find? (fun b => b.param == p.name) with
+    | some b => !b.split || p.ty.mapDim == 0
+    | none => true) &&
+  (P.insOf c.callee).all fun p =>
+    match c.binds.find? (fun b => b.param == p.name) with
+    | some b => hasTyB st n sT cT (if b.split then liftSplitTy isMap p.ty else p.ty) b.exp
+    | none => true
+
+/-- the type later bindings see `CALL` at, if the call is well typed -/
+def callOkGB (st : StructTable) (n : Nat) (P : Program) (sT cT : String → Ty) (c : Call) : Option Ty :=
+  if callOkB st n P.insOf sT cT c && c.binds.all (fun b => !b.split) then some ⟨c.callee, 0, 0⟩
+  else if mappedOkGB st n P sT cT c false then some ⟨c.callee, 0, 1⟩
+  else if mappedOkGB st n P sT cT c true then some ⟨c.callee, 1, 0⟩
+  else none
+
+def callsOkGB (st : StructTable) (n : Nat) (P : Program) (sT : String → Ty) :
+    List (String × Ty) → List Call → Option (List (String × Ty))
+  | L, [] => some L
+  | L, c :: cs =>
+    match callOkGB st n P sT (callTyOfB L) c with
+    | some ty => callsOkGB st n P sT (L ++ [(c.id, ty)]) cs
+    | none => none
+
+def pipelineOkGB (st : StructTable) (n : Nat) (P : Program) (pins outs : List Param)
+    (calls : List Call) (ret : List (String × Exp)) : Bool :=
+  match callsOkGB st n P (selfTyOfB pins) [] calls with
+  | some L =>
+    outs.all fun p =>
+      match ret.lookup p.name with
+      | some e => hasTyB st n (selfTyOfB pins) (callTyOfB L) p.ty e
+      | none => true
+  | none => false
+
+/-- decidable hypotheses of `resolver_refines_den_mapstatic_checked` (with `staticProgramOk`, `acyclicB`) -/
+def wellTypedGB (P : Program) : Bool :=
+  structsOkB P.table &&
+  (P.callables.all fun e => P.table.lookup e.1 == some e.2.outs) &&
+  (P.callables.all fun e =>
+    match e.2 with
+    | .stage _ _ => true
+    | .pipeline pins outs calls ret => pipelineOkGB P.table P.table.length P pins outs calls ret) &&
+  callOkB P.table P.table.length P.insOf (selfTyOfB []) (callTyOfB []) P.top &&
+  P.top.binds.all fun b => !b.split
+
+end Martian.ResolverStatic
+
+namespace Martian.ResolverStatic
+open Martian.Dataflow
+
+/-! ## programs with array-mode map calls of stages AND pipelines, nested (sizes: `treeOkList`) -/
+
+def mappedOkTB (st : StructTable) (n : Nat) (P : Program) (sT cT : String → Ty) (c : Call) : Bool :=
+  c.mapped && c.disabled.isNone &&
+  (c.binds.any fun b => b.split) &&
+  decide ((c.binds.map (·.param)).Nodup) &&
+  (c.binds.all fun b => !b.split || (P.insOf c.callee).any fun p => p.name == b.param) &&
+  (P.insOf c.callee).all fun p =>
+    match c.binds.find? (fun b => b.param == p.name) with
+    | some b => hasTyB st n sT cT (if b.split then liftSplitTy false p.ty else p.ty) b.exp
+    | none => true
+
+def callOkTB (st : StructTable) (n : Nat) (P : Program) (sT cT : String → Ty) (c : Call) : Bool :=
+  (callOkB st n P.insOf sT cT c && c.binds.all fun b => !b.split) || mappedOkTB st n P sT cT c
+
+def callsOkTB (st : StructTable) (n : Nat) (P : Program) (sT : String → Ty) :
+    List (String × Ty) → List Call → Bool
+  | _, [] => true
+  | L, c :: cs => callOkTB st n P sT (callTyOfB L) c && callsOkTB st n P sT (L ++ [(c.id, callTyMB c)]) cs
+
+def pipelineOkTB (st : StructTable) (n : Nat) (P : Program) (pins outs : List Param)
+    (calls : List Call) (ret : List (String × Exp)) : Bool :=
+  callsOkTB st n P (selfTyOfB pins) [] calls &&
+  outs.all fun p =>
+    match ret.lookup p.name with
+    | some e => hasTyB st n (selfTyOfB pins) (callTyOfB (calls.map fun c => (c.id, callTyMB c))) p.ty e
+    | none => true
+
+/-- decidable typing hypothesis of `resolver_refines_den_mappedpipes_checked` -/
+def wellTypedTB (P : Program) : Bool :=
+  structsOkB P.table &&
+  (P.callables.all fun e => P.table.lookup e.1 == some e.2.outs) &&
+  (P.callables.all fun e =>
+    match e.2 with
+    | .stage _ _ => true
+    | .pipeline pins outs calls ret => pipelineOkTB P.table P.table.length P pins outs calls ret) &&
+  callOkB P.table P.table.length P.insOf (selfTyOfB []) (callTyOfB []) P.top &&
+  P.top.binds.all fun b => !b.split
+
+end Martian.ResolverStatic
+
+namespace Martian.ResolverStatic
+open Martian.Dataflow
+
+/-- nesting depth of a callable in the call graph (0 for stages / unknown names), with fuel -/
+def callDepth (P : Program) : Nat → String → Nat
+  | 0, _ => 0
+  | n+1, name =>
+    match P.callables.lookup name with
+    | some (.pipeline _ _ calls _) => 1 + (calls.map fun c => callDepth P n c.callee).foldl max 0
+    | _ => 0
+
+/-- the call graph is acyclic and `Program.fuel` exceeds its depth (decidable) -/
+def callGraphAcyclicB (P : Program) : Bool :=
+  (P.callables.all fun e =>
+    match e.2 with
+    | .stage _ _ => true
+    | .pipeline _ _ calls _ =>
+      calls.all fun c => (P.callables.lookup c.callee).isNone ||
+        callDepth P P.callables.length c.callee < callDepth P P.callables.length e.1) &&
+  callDepth P P.callables.length P.top.callee < P.fuel
+
+end Martian.ResolverStatic
+
